@@ -314,16 +314,38 @@ func runC15(c *Ctx) {
 
 func (c *Ctx) c15Accept(serve, loopFn *ssa.Function, memo map[*ssa.Function]int) {
 	r := c.R
-	var accept *ssa.Call
+	// the accept call and the temporary-error handling: in Serve, or in a helper Serve calls for the next
+	// connection (accept-with-retry)
+	acceptLoop := serve
+	findAccept := func(f *ssa.Function) *ssa.Call {
+		for _, ci := range flow.CallInstrs(f) {
+			if call, ok := ci.(*ssa.Call); ok && call.Call.IsInvoke() && call.Call.Method.Name() == "Accept" && flow.TypeIs(call.Call.Value.Type(), "net", "Listener") {
+				return call
+			}
+		}
+		return nil
+	}
+	accept := findAccept(serve)
+	var helpers []*ssa.Function
 	for _, ci := range flow.CallInstrs(serve) {
-		if call, ok := ci.(*ssa.Call); ok && call.Call.IsInvoke() && call.Call.Method.Name() == "Accept" && flow.TypeIs(call.Call.Value.Type(), "net", "Listener") {
-			accept = call
+		if call, ok := ci.(*ssa.Call); ok {
+			if g := flow.StaticCallee(call); g != nil && g.Blocks != nil && c.P.IsLibrary(g) && pkgOf(g).Path() == pkgDiam {
+				helpers = append(helpers, g)
+			}
+		}
+	}
+	if accept == nil {
+		for _, g := range helpers {
+			if a := findAccept(g); a != nil {
+				accept, serve = a, g
+			}
 		}
 	}
 	if accept == nil {
 		r.Undecided("R3", fname(serve)+":accept", c.fpos(serve), "no net.Listener.Accept call found")
 		return
 	}
+	defer func() {}()
 	isAccept := func(in ssa.Instruction) bool { return in == ssa.Instruction(accept) }
 	// temporary edge
 	nTemp := 0
@@ -436,34 +458,41 @@ func (c *Ctx) c15Accept(serve, loopFn *ssa.Function, memo map[*ssa.Function]int)
 		}
 	}
 	// constructor failure continues
-	for _, ci := range flow.CallInstrs(serve) {
-		call, ok := ci.(*ssa.Call)
-		if !ok {
-			continue
-		}
-		g := flow.StaticCallee(call)
-		if g == nil || loopFn.Signature.Recv() == nil || !returnsType(g, loopFn.Signature.Recv().Type()) {
-			continue
-		}
-		key := fname(serve) + ":constructor-failure"
-		eb := errorEdgeBlocks(call)
-		bad := false
-		for b := range eb {
-			for _, in := range b.Instrs {
-				if flow.IsExit(in) {
-					// reached only via error edge; is it reachable without passing accept? it is in the error region => yes unless accept dominates… check path
-					bad = true
-					r.Fail("R3", key, c.pos(in), "a failed connection constructor makes Serve return")
+	ctorFns := append([]*ssa.Function{acceptLoop}, helpers...)
+	for _, cf := range ctorFns {
+		for _, ci := range flow.CallInstrs(cf) {
+			call, ok := ci.(*ssa.Call)
+			if !ok {
+				continue
+			}
+			g := flow.StaticCallee(call)
+			if g == nil || loopFn.Signature.Recv() == nil || !returnsType(g, loopFn.Signature.Recv().Type()) {
+				continue
+			}
+			key := fname(acceptLoop) + ":constructor-failure"
+			eb := errorEdgeBlocks(call)
+			bad := false
+			for b := range eb {
+				for _, in := range b.Instrs {
+					// in a start-the-connection helper a return on the failure edge goes back to the accept loop
+					if _, isRet := in.(*ssa.Return); isRet && cf != acceptLoop {
+						continue
+					}
+					if flow.IsExit(in) {
+						// reached only via error edge; is it reachable without passing accept? it is in the error region => yes unless accept dominates… check path
+						bad = true
+						r.Fail("R3", key, c.pos(in), "a failed connection constructor makes Serve return")
+					}
 				}
 			}
-		}
-		if !bad {
-			r.Ok("R3", key, c.pos(call), "constructor failure edge contains no exit of the accept loop")
+			if !bad {
+				r.Ok("R3", key, c.pos(call), "constructor failure edge contains no exit of the accept loop")
+			}
 		}
 	}
 	// no connection I/O on accept goroutine
 	rm := c.P.Func("diam", "ReadMessage")
-	for _, ci := range flow.CallInstrs(serve) {
+	for _, ci := range flow.CallInstrs(acceptLoop) {
 		call, ok := ci.(*ssa.Call)
 		if !ok {
 			continue
@@ -471,11 +500,11 @@ func (c *Ctx) c15Accept(serve, loopFn *ssa.Function, memo map[*ssa.Function]int)
 		g := flow.StaticCallee(call)
 		if g == nil || !c.P.InModule(pkgOf(g)) {
 			if isHandlerInvocation(call) {
-				r.Fail("R3", fname(serve)+":handler-on-accept-goroutine", c.pos(call), "a handler is invoked on the accept goroutine")
+				r.Fail("R3", fname(acceptLoop)+":handler-on-accept-goroutine", c.pos(call), "a handler is invoked on the accept goroutine")
 			}
 			continue
 		}
-		key := fname(serve) + ":call-" + g.Name()
+		key := fname(acceptLoop) + ":call-" + g.Name()
 		if (rm != nil && (g == rm || c.reachesFunc(g, rm, map[*ssa.Function]bool{}))) || c.reachesHandler(g, false, memo) {
 			r.Fail("R3", key, c.pos(call), fmt.Sprintf("the accept loop calls %s synchronously, which reads messages / runs handlers: one connection can block or crash the listener", fname(g)))
 		} else if io := c.reachesConnIO(g, map[*ssa.Function]bool{}); io != "" {
@@ -523,6 +552,39 @@ func (c *Ctx) c15Report(loopFn *ssa.Function) {
 	// the report (in the loop function's error region, or in a helper the error is handed to there)
 	key = fname(loopFn) + ":error-report"
 	ok, at, why := c.reportOffered(loopFn, errv, func(b *ssa.BasicBlock) bool { return eb[b] }, 0)
+	if !ok {
+		// a loop helper that ends by returning the read error (and only then): the report is its caller's
+		// business, on everything that follows the helper's call
+		onlyOnError := true
+		flow.Instrs(loopFn, func(in ssa.Instruction) {
+			ret, isRet := in.(*ssa.Return)
+			if !isRet {
+				return
+			}
+			if !eb[ret.Block()] || len(ret.Results) == 0 || ret.Results[len(ret.Results)-1] != errv {
+				onlyOnError = false
+			}
+		})
+		if onlyOnError {
+			for _, cs := range c.librarySites(loopFn) {
+				call, isCall := cs.(*ssa.Call)
+				if !isCall {
+					continue
+				}
+				if ev := errorResult(call); ev != nil {
+					g := cs.Parent()
+					ok2, at2, why2 := c.reportOffered(g, ev, func(b *ssa.BasicBlock) bool {
+						return len(b.Instrs) > 0 && (b == call.Block() || flow.Dominates(call, b.Instrs[0]))
+					}, 0)
+					if ok2 {
+						ok, at, why = true, at2, ""
+					} else if why2 != "" {
+						why = why2
+					}
+				}
+			}
+		}
+	}
 	if at == nil {
 		at = read
 	}
